@@ -12,3 +12,8 @@ pub use nonmagic::WHITE_PAWN_NONMAGICS;
 pub use nonmagic::BLACK_PAWN_NONMAGICS;
 pub use nonmagic::Nonmagics;
 pub use nonmagic::UnsafeNonmagicsExt;
+
+#[cfg(inkayaku_verif)]
+pub use magic::verif as magic_verif;
+#[cfg(inkayaku_verif)]
+pub use nonmagic::verif as nonmagic_verif;
